@@ -23,4 +23,19 @@ CATALOG = [
     dict(pid="C07", name="qed shift applied to beta1", edits=[(K + "non_singlet_qed.py", "betalist[0] += aem * beta.beta_qcd((2, 1), nf)", "betalist[-1] += aem * beta.beta_qcd((2, 1), nf)")], expect="C07.qed"),
     dict(pid="C07", name="qed log sign", edits=[(K + "non_singlet_qed.py", "np.log(mu2_from / mu2_to)", "np.log(mu2_to / mu2_from)")], expect="pure_qed"),
     dict(pid="C07", name="dispatcher order-3 exact returns expanded for DECOMPOSE_EXACT", edits=[(K + "non_singlet.py", "    if order[0] == 3:\n        if method in [\n            EvoMethods.ITERATE_EXPANDED,\n            EvoMethods.DECOMPOSE_EXPANDED,", "    if order[0] == 3:\n        if method in [\n            EvoMethods.ITERATE_EXPANDED,\n            EvoMethods.DECOMPOSE_EXACT,")], expect="DECOMPOSE_EXACT"),
+    # ---- C19 -------------------------------------------------------------------------------------------
+    dict(pid="C19", name="shift off by one (downward)", edits=[("eko/matchings.py", "rc, shift = (-1, -3) if nff < nf0 else (1, -2)", "rc, shift = (-1, -2) if nff < nf0 else (1, -2)")], expect="junction"),
+    dict(pid="C19", name="hq = min instead of max", edits=[("eko/matchings.py", "max(prev.nf, seg.nf)", "min(prev.nf, seg.nf)")], expect="matched_path"),
+    dict(pid="C19", name="inverse tied to scale order", edits=[("eko/matchings.py", "    return path[1].nf < path[0].nf", "    return path[0].is_downward")], expect="matched_path"),
+    dict(pid="C19", name="default nf off by one", edits=[("eko/matchings.py", "return int(2 + ref_idx)", "return int(3 + ref_idx)")], expect="default_nf"),
+    dict(pid="C19", name="harmless: boundaries built in two steps", harmless=True, edits=[("eko/matchings.py", "boundaries = [mu20] + self.walls[nf0 + shift : nff + shift : rc] + [mu2f]", "inner = self.walls[nf0 + shift : nff + shift : rc]\n        boundaries = [mu20] + inner + [mu2f]")]),
+    # ---- C21 -------------------------------------------------------------------------------------------
+    dict(pid="C21", name="exponentiated order-4 coefficient 5/2 -> 3/2", edits=[("eko/scale_variations/exponentiated.py", "5.0 / 2.0 * beta1 * beta0 * L**2", "3.0 / 2.0 * beta1 * beta0 * L**2")], expect="exponentiated"),
+    dict(pid="C21", name="exponentiated update order reversed (aliasing)", edits=[("eko/scale_variations/exponentiated.py", "    if order[0] >= 2:\n        gamma[1] += beta0 * gamma[0] * L\n    return gamma", "    return gamma"), ("eko/scale_variations/exponentiated.py", "    beta2 = beta.beta_qcd((4, 0), nf)\n", "    beta2 = beta.beta_qcd((4, 0), nf)\n    if order[0] >= 2:\n        gamma[1] += beta0 * gamma[0] * L\n")], expect="exponentiated"),
+    dict(pid="C21", name="expanded as3 missing factor 2 on beta0 gamma1", edits=[("eko/scale_variations/expanded.py", "2.0 * beta0 * gamma[1]", "beta0 * gamma[1]")], expect="expanded"),
+    dict(pid="C21", name="expanded as2 sign of beta0 term", edits=[("eko/scale_variations/expanded.py", "(beta0 * gamma[0] + g0e2)", "(-beta0 * gamma[0] + g0e2)")], expect="expanded"),
+    dict(pid="C21", name="qed return nested again", edits=[("eko/scale_variations/exponentiated.py", "            gamma[0, 2] += beta0qed * gamma[0, 1] * L\n    return gamma", "            gamma[0, 2] += beta0qed * gamma[0, 1] * L\n        return gamma")], expect="returns_array"),
+    dict(pid="C21", name="qed term applied for fixed alpha_em too", edits=[("eko/scale_variations/expanded.py", "    sv_ker = non_singlet_variation(gamma[1:, 0], a_s, order, nf, L)\n    if alphaem_running:\n        if order[1] >= 2:", "    sv_ker = non_singlet_variation(gamma[1:, 0], a_s, order, nf, L)\n    if True:\n        if order[1] >= 2:")], expect="non_singlet_variation_qed"),
+    dict(pid="C21", name="singlet g1g0 dropped (g0g1 twice)", edits=[("eko/scale_variations/expanded.py", "        g1g0 = gamma[1] @ gamma[0]\n        g0g1 = gamma[0] @ gamma[1]", "        g1g0 = gamma[0] @ gamma[1]\n        g0g1 = gamma[0] @ gamma[1]")], expect="singlet"),
+    dict(pid="C21", name="harmless: variation_as1 commuted product", harmless=True, edits=[("eko/scale_variations/expanded.py", "    return L * gamma[0]", "    return gamma[0] * L")]),
 ]
